@@ -13,7 +13,11 @@ code -> spec: seeded random content trees (hardlink groups, symlinks to files/di
               fifos, nested dirs, odd names, missing parent entries) over random pre-existing roots
               (same type, other type, symlinked directories, dangling symlinks, unrelated files, stale
               `#new` siblings, old hardlinks), with / without offset / offset created by the merge,
-              through ops.merge_contents and through MergeEngine.install.  The recorded syscalls are
+              through ops.merge_contents and through MergeEngine.install.  About a third of the scenarios are
+              decorated with the tolerated CannotOverwrite retry of merge_contents (symlink entries over an
+              existing real directory whose target is a directory) placed in the middle of the iteration
+              order, with a hardlink group straddling it and every other feature on either side; the quick
+              sample of the exported pairs is stratified over (cset kinds x what g meets).  The recorded syscalls are
               replayed through FsModel by Merge_Trace; judged there: model == real snapshot
               (FinalState/FinalLinks), real snapshot vs Merge!Expected(old, cset, offset) one clause per
               attribute (Type Data Target Mtime Mode Owner Hardlink DirPermsKept Frame, Outcome_*).
@@ -473,6 +477,7 @@ def judge(ck, module, events, label):
     ck.add_mc(label, res)
     ck.traces += len({e["tid"] for e in events})
     exp = {p[1]: (p[2], p[3]) for p in res.tagged("EXPECT")}
+    ck.extra["retry_scenarios"] = ck.extra.get("retry_scenarios", 0) + sum(1 for p in res.tagged("EXPECT") if len(p) > 4 and p[2] == "ok" and p[4] > 0)
     for v in verdicts:
         if v["clause"].startswith("Model_"):
             e = next(e for e in events if e["tid"] == v["tid"] and e["i"] == v["i"])
